@@ -221,6 +221,42 @@ def check_jacobi_rotation(S, d, t):
     if ncell < 3: return 'only %d of the cells rho > 0, rho < 0, rho == 0 are feasible' % ncell, None
     return None, 'cells rho > 0, rho < 0, rho == 0: t^2 + 2 rho t - 1 = 0, diagonal / Z updates by t*y, A[j][k] = 0, %d pairs turned by one rotation of tangent t' % (2 * d - 2)
 
+def check_procrustes_callsite(rep, ws):
+    """R12.procrustes (call-site rule on the IR): both instantiations of procrustesRotationAndTranslation hand their 3x3
+    covariance matrix to the double-precision jacobiSVD exactly once, with a tolerance that is a constant not above the
+    double epsilon (the accumulation is in double whatever T is: a float-sized tolerance leaves rotations below 1e-7 rad
+    undetected) and with forcePositiveDeterminant = true (so that Q = V U^T is a rotation, never a reflection)."""
+    import struct
+    hdr = '#include "%s"\nusing namespace IMATH_INTERNAL_NAMESPACE;\n' % os.path.join(build.REPO, 'src', 'Imath', 'ImathMatrixAlgo.cpp')
+    src = hdr + 'extern "C" {\nvoid w_procf(M44d& o, const V3f* A, const V3f* B, const float* w, const size_t& n, const bool& s) { o = procrustesRotationAndTranslation(A, B, w, n, s); }\nvoid w_procd(M44d& o, const V3d* A, const V3d* B, const double* w, const size_t& n, const bool& s) { o = procrustesRotationAndTranslation(A, B, w, n, s); }\n}\n'
+    try:
+        bc = ws.compile('c12_procrustes', src)
+        mod = ws.irx(bc, opaque=('9jacobiSVD',), prefixes=('w_',), no_unroll=True)
+    except build.BuildError as e:
+        rep.ob('procrustesRotationAndTranslation#svd', 'R12.procrustes', UNDECIDED, str(e)[:300]); return
+    for f in mod['functions']:
+        if f['name'] not in ('w_procf', 'w_procd'): continue
+        E = 'float' if f['name'] == 'w_procf' else 'double'
+        oid = 'procrustesRotationAndTranslation<%s>#svd' % E
+        calls = [i for b in f['blocks'] for i in b['insts'] if i.get('op') == 'call' and 'jacobiSVD' in str(i.get('callee', ''))]
+        where = None
+        if calls: where = '%s:%s (%s)' % (build.repo_rel(calls[0].get('file', '')), calls[0].get('line'), calls[0].get('fn', ''))
+        if len(calls) != 1:
+            rep.ob(oid, 'R12.procrustes', VIOLATED, '%d calls of jacobiSVD, expected one' % len(calls), where); continue
+        c = calls[0]; ops = c.get('ops', [])
+        bad = None
+        if 'jacobiSVDIdE' not in c['callee'] or 'Matrix33' not in c['callee']:
+            bad = 'the covariance matrix is decomposed by %s, expected the double-precision 3x3 jacobiSVD' % c['callee']
+        elif len(ops) < 6 or ops[4].get('k') != 'cf':
+            bad = 'the tolerance of the SVD is not a constant'
+        else:
+            tol = struct.unpack('<d', struct.pack('<Q', int(ops[4]['bits'])))[0]
+            if not (0 < tol <= 2.0 ** -52):
+                bad = 'the tolerance handed to the double-precision SVD is %g; it must not exceed the double epsilon 2^-52 = %g (rotations smaller than the tolerance are treated as already diagonal and dropped)' % (tol, 2.0 ** -52)
+            elif not (ops[5].get('k') == 'ci' and int(ops[5]['v']) == 1):
+                bad = 'forcePositiveDeterminant is not true: Q = V U^T can then be a reflection'
+        rep.ob(oid, 'R12.procrustes', VIOLATED if bad else HOLDS, bad or 'one call of jacobiSVD<double>(Matrix33) with tolerance 2^-52 and forcePositiveDeterminant = true', where)
+
 def check_eigsel(rep, R, tu, t):
     """R12.eigsel: on every weak ordering of the magnitudes |S_i| of the solver's eigenvalues (and of any raw S_i the code
     compares, consistent with S_i <= |S_i|), the vector returned is the column of the eigenbasis belonging to a
@@ -432,6 +468,7 @@ def main(rep, ws, tier):
     tuo = [gen_opaque(t) for t in types]; tui = [gen_inline(t) for t in types]; tus = [gen_shrt(t, SHRT_ORDERS_QUICK if tier == 'quick' else SHRT_ORDERS_ALL) for t in types]; tuj = [gen_jacobi(t) for t in types]
     tum = [gen_measure(t) for t in types]; tue = [gen_eigsel(t) for t in types]
     an = Analysed(ws, tuo + tui + tus + tuj + tum + tue, rep)
+    check_procrustes_callsite(rep, ws)
     for tm, te, t in zip(tum, tue, types):
         check_measures(rep, an[tm], tm, t)
         check_sweeps(rep, ws, t)
